@@ -119,17 +119,21 @@ def decimal_field(name, rule, empty):
     return {"name": name, "type": "Decimal", "empty": empty, "rule": rule, "digits": [before, after]}
 
 
-def all_cases():
+def all_cases(tier="quick"):
     from_dialects = ["ANSI", "DB2", "Transact-SQL", "PL/SQL"]
     cases = []
+    thorough = tier == "thorough"
+    boundary = BOUNDARY
+    if thorough:  # also the decimal digit-count boundaries, both signs
+        boundary = sorted(set(BOUNDARY) | {s * v for s in (1, -1) for k in (1, 2, 3, 4, 5, 9, 10, 18, 19) for v in (10**k - 1, 10**k)})
     for dialect in from_dialects:
-        for lo, hi in itertools.combinations_with_replacement(BOUNDARY, 2):
+        for lo, hi in itertools.combinations_with_replacement(boundary, 2):
             cases.append({"dialect": dialect, "fields": [integer_field("v", lo, hi, False)]})
         # multi-item rules: the column must hold the overall minimum and maximum, whatever the order of the items
         pool = [-40000, -129, -5, -1, 0, 1, 9, 255, 256, 1000, 32767, 32768, 70000, 2**31 - 1, 2**31]
         for a, b, c, d in itertools.combinations(pool, 4):
-            if (pool.index(a) + pool.index(d)) % 3:
-                continue  # a third of the 1365 quadruples, spread over the pool
+            if (pool.index(a) + pool.index(d)) % 3 and not thorough:
+                continue  # quick: a third of the 1365 quadruples, spread over the pool
             for items in ([(a, b), (c, d)], [(c, d), (a, b)], [(a, a), (b, c), (d, d)], [(d, d), (a, a), (b, c)]):
                 rule = ", ".join("%d" % lo if lo == hi else "%d...%d" % (lo, hi) for lo, hi in items)
                 cases.append({"dialect": dialect, "fields": [{"name": "v", "type": "Integer", "empty": False, "rule": rule, "range": [a, d]}]})
@@ -158,6 +162,15 @@ def all_cases():
                     if len(chosen) == count:
                         break
                 cases.append({"dialect": dialect, "fields": chosen})
+        if thorough:
+            # every ordered pair of declarations with different names, and every ordered triple over half of the catalogue:
+            # whatever one column leaves behind for the next one shows up in some order
+            for first, second in itertools.permutations(catalogue, 2):
+                if first["name"] != second["name"]:
+                    cases.append({"dialect": dialect, "fields": [first, second]})
+            for triple in itertools.permutations(catalogue[::2], 3):
+                if len({f["name"] for f in triple}) == 3:
+                    cases.append({"dialect": dialect, "fields": list(triple)})
     return cases
 
 
@@ -186,10 +199,10 @@ def work(item):
 
 
 def run(ctx):
-    cases = interleaved(all_cases())
+    cases = interleaved(all_cases(ctx.tier))
     ctx.pmap(MOD, "work", engine.chunks(cases, 120), label="C19")
     ctx.bound = {"cases": len(cases), "integer ranges": "all %d pairs lo <= hi over the boundary set of %d values x 4 dialects, plus length-derived and default ranges" % (len(BOUNDARY) * (len(BOUNDARY) + 1) // 2, len(BOUNDARY)),
-                 "CIDs": "1..6 fields over a catalogue of 40 typed declarations with 10 names (keywords of every dialect included), empty flag both ways", "dialects": ["ANSI", "DB2", "Transact-SQL", "PL/SQL"]}
+                 "CIDs": "1..6 fields over a catalogue of 40 typed declarations with 10 names (keywords of every dialect included), empty flag both ways" + ("; every ordered pair and (over half of the catalogue) triple of declarations" if ctx.tier == "thorough" else ""), "dialects": ["ANSI", "DB2", "Transact-SQL", "PL/SQL"]}
     ctx.rule = ("the statement is parsed back line by line: one column per field in order, name quoted iff in the dialect's own keyword list, 'not null' iff not allowed to be empty, Integer capacity by the dialect's type semantics "
                 "(decimal / number capacities compared by digit counts), Decimal (total, fraction digits), text upper length; non-trivial = multi-column CIDs and ranges with a negative limit; states = distinct statement shapes")
     ctx.assumptions = ["ANSI and PL/SQL 'int' are implementation defined / NUMBER(38) and never alarm", "open integer ranges are outside the statement (bounded ranges only)"]
